@@ -1,6 +1,6 @@
 package zzh
 
-//gosx:file init=github.com/free5gc/chf/cdr/asn,github.com/free5gc/chf/zzh
+//gosx:file init=github.com/free5gc/chf/cdr/asn,github.com/free5gc/chf/zzref,github.com/free5gc/chf/zzh
 
 import (
 	"reflect"
